@@ -20,7 +20,9 @@ RULE = ("fault enumeration: for every scenario (operation {create, replace, dele
         "open for writing at that instant (read from /proc/self/fd) is cut to zero and to half of its final content, plus once per mutation k with the process killed at the first "
         "trace event of the calling frame after mutation k returned (before any unhooked write / flush / close that follows it); on every crash state the next operation of "
         "the client (a shorter write of the same target / the same property; stale *.lock files removed first if they refuse it) must be acknowledged and read back exactly, or the interrupted operation itself is repeated and must give the completed state; for vdir (few mutations per "
-        "operation) the next write is itself killed at each of its mutations (crash states copied with cp -a so that hard links survive) and must leave the crash state or its own result; each crash state is re-opened by a fresh store object: all "
+        "operation) the next write is itself killed at each of its mutations (crash states copied with cp -a so that hard links survive) and must leave the crash state or its own result, and some vdir "
+        "scenarios run with $TMPDIR on another file system (/dev/shm); every operation is also run under a file size limit (RLIMIT_FSIZE 0..1500 bytes, SIGXFSZ ignored) so that it fails with an "
+        "I/O error instead of dying: not acknowledged, so the state must be the old one; each crash state is re-opened by a fresh store object: all "
         "members must read and parse, the target must be old or new, everything else unchanged, `git fsck --connectivity-only` and `git rev-list --objects --all` must succeed; "
         "thorough adds SIGKILL at random instants of a loop of acknowledged writes; distinct = distinct (op, store, meta, prior, crash index, variant) points")
 
@@ -29,6 +31,9 @@ OPS = ["create", "replace", "delete", "set-displayname", "set-color", "set-descr
 
 def sha(b):
     return hashlib.sha256(b).hexdigest()[:16]
+
+
+OTHER_FS_TMP = [None]     # set per scenario: a scratch directory on a file system other than the store's
 
 
 def state_of(backend, path):
@@ -138,7 +143,7 @@ def open_write_fds(under):
     return out
 
 
-def child_run(backend, path, op, bodies, crash_at, record_file, after=False):
+def child_run(backend, path, op, bodies, crash_at, record_file, after=False, fsize=None):
     """fork; in the child install the agent and run the operation.
     Returns (exit status, record or None)."""
     pid = os.fork()
@@ -146,6 +151,22 @@ def child_run(backend, path, op, bodies, crash_at, record_file, after=False):
         try:
             import logging
             logging.disable(logging.CRITICAL)
+            if OTHER_FS_TMP[0]:
+                # deployment in which $TMPDIR lies on another file system than the data (tmpfs): rename() across the two fails
+                import tempfile
+                os.environ["TMPDIR"] = OTHER_FS_TMP[0]
+                tempfile.tempdir = None
+            if fsize is not None:
+                # a write that fails (disk full / quota / file size limit): no file may grow beyond `fsize` bytes
+                import resource
+                import signal
+                signal.signal(signal.SIGXFSZ, signal.SIG_IGN)
+                resource.setrlimit(resource.RLIMIT_FSIZE, (fsize, fsize))
+                try:
+                    do_op(backend, path, op, bodies)
+                except BaseException:
+                    os._exit(5)
+                os._exit(0)
             ag = A.Agent(log=None, crash_under=os.path.realpath(path), crash_at=crash_at)
             ag.record_mut = crash_at is None
             ag.crash_after = after
@@ -198,10 +219,32 @@ def git_checks(backend, path, env):
 
 
 def run_scenario(sc, res, rng, base, env):
+    OTHER_FS_TMP[0] = None
+    if sc.get("tmp_on_other_fs"):
+        shm = "/dev/shm"
+        try:
+            if os.path.isdir(shm) and os.stat(shm).st_dev != os.stat(base).st_dev and os.access(shm, os.W_OK):
+                OTHER_FS_TMP[0] = os.path.join(shm, "xandikos-verif-c04-%d" % os.getpid())
+                os.makedirs(OTHER_FS_TMP[0], exist_ok=True)
+        except OSError:
+            OTHER_FS_TMP[0] = None
+        if OTHER_FS_TMP[0] is None:
+            res.count("scenarios_skipped_no_second_file_system")
+            return
+        res.count("scenarios_with_tmpdir_on_another_file_system")
+    try:
+        return _run_scenario(sc, res, rng, base, env)
+    finally:
+        if OTHER_FS_TMP[0]:
+            common.rmtree(OTHER_FS_TMP[0])
+            OTHER_FS_TMP[0] = None
+
+
+def _run_scenario(sc, res, rng, base, env):
     backend, meta, op, prior = sc["backend"], sc["meta"], sc["op"], sc["prior"]
     if op in ("replace", "delete") and prior == 0:
         return
-    tag = f"{backend}/{meta}/{op}"
+    tag = f"{backend}/{meta}/{op}" + ("/tmpdir-on-another-file-system" if sc.get("tmp_on_other_fs") else "")
     pre = os.path.join(base, "pre")
     common.rmtree(pre)
     os.environ["HOME"] = os.path.join(base, "home")
@@ -340,11 +383,46 @@ def run_scenario(sc, res, rng, base, env):
                 follow_up(backend, work, op, bodies, st, res, tag, prior, where, variant, sc, k)
             else:
                 retry_same(backend, work, op, bodies, new_state, res, tag, prior, where, variant, sc, k)
+    # ---- the operation fails with an I/O error instead of dying: it is not acknowledged, so nothing may have changed
+    for lim in ((0, 40, 300, 1500) if backend == "vdir" or prior <= 1 else (0, 300)):
+        common.rmtree(work)
+        shutil.copytree(pre, work, symlinks=True)
+        code = child_run(backend, work, op, bodies, None, None, fsize=lim)
+        res.count("failed_write_runs")
+        if code == 0:
+            res.count("failed_write_runs_where_the_limit_was_not_hit")
+            continue
+        res.evaluations += 1
+        res.count("failed_write_points")
+        res.seen(tag, prior, "failed-write", lim)
+        fwhere = f"every write beyond {lim} bytes of a file fails (EFBIG)"
+        try:
+            stf, probs = state_of(backend, work)
+        except Exception as e:  # noqa
+            res.violation(f"{tag}/store-does-not-open-after-failed-write/{type(e).__name__}", f"{tag} prior={prior}: {fwhere}: the operation raised, afterwards the store cannot be read: {e!r}", {"scenario": sc, "fsize": lim})
+            continue
+        for pr in probs:
+            res.violation(f"{tag}/unreadable-after-failed-write", f"{tag} prior={prior}: {fwhere}: the operation raised (not acknowledged), afterwards: {pr}", {"scenario": sc, "fsize": lim})
+        if stf != old_state:
+            diff = describe_diff(old_state, new_state, stf)
+            res.violation(f"{tag}/failed-write-changed-the-state/{diff[0]}", f"{tag} prior={prior}: {fwhere}: the operation raised (not acknowledged) but the state is not the old one: {diff[1]}",
+                          {"scenario": sc, "fsize": lim, "old": old_state, "got": stf})
     res.count("straddled:" + tag, 1 if (seen_old and seen_new) else 0)
     res.count("scenario_seen_old:" + tag, 1 if seen_old else 0)
     res.count("scenario_seen_new:" + tag, 1 if seen_new else 0)
     if len(res.samples) < 3:
         res.sample({"scenario": sc, "mutations": [[e[0], os.path.relpath(e[1], os.path.realpath(work)) if os.path.isabs(e[1]) else e[1]] for e in rec["events"]][:40]})
+
+
+def remove_stale_locks(work):
+    """what an administrator does after a crash because git asks for it: the lock files of index, HEAD, refs and config.
+    Temporary files of the object store (objects/xx/<sha>.lock) are not locks anybody is told to remove."""
+    for r_, d_, fs in os.walk(work):
+        if os.sep + "objects" + os.sep in r_ + os.sep or r_.endswith(os.sep + "objects"):
+            continue
+        for f in fs:
+            if f.endswith(".lock"):
+                os.unlink(os.path.join(r_, f))
 
 
 def cp_a(src, dst):
@@ -410,13 +488,13 @@ def retry_same(backend, work, op, bodies, new_state, res, tag, prior, where, var
         cls = storedrv.classify(e)
         if (cls == "Locked" or "Locked" in type(e).__name__) and not cleaned:
             res.count("retries_refused_by_stale_lock")
-            for r_, d_, fs in os.walk(work):
-                for f in fs:
-                    if f.endswith(".lock"):
-                        os.unlink(os.path.join(r_, f))
+            remove_stale_locks(work)
             return retry_same(backend, work, op, bodies, new_state, res, tag, prior, where, variant + "+stale-locks-removed", sc, k, cleaned=True)
         if op == "delete" and cls == "NoSuchItem":
             pass   # already deleted by the interrupted attempt
+        elif cls == "Locked" or "Locked" in type(e).__name__:
+            res.count("retries_still_refused_after_lock_cleanup")     # a refusal, not an acknowledgement: counted, not judged
+            return
         else:
             res.violation(f"{tag}/retry-of-interrupted-operation-fails/{variant}/{cls.replace('EXC:', '')}", f"{tag} prior={prior}: crash {where} [{variant}]: repeating the operation raises {e!r}", wit)
             return
@@ -457,15 +535,15 @@ def follow_up(backend, work, op, bodies, st_crash, res, tag, prior, where, varia
         if (cls == "Locked" or "Locked" in type(e).__name__) and not cleaned:
             res.count("followups_refused_by_stale_lock")
             # what an administrator does after a crash (git asks for the same): remove the stale lock files, try again
-            for r_, d_, fs in os.walk(work):
-                for f in fs:
-                    if f.endswith(".lock"):
-                        os.unlink(os.path.join(r_, f))
+            remove_stale_locks(work)
             try:
                 st_clean, _p = state_of(backend, work)
             except Exception:
                 return
             return follow_up(backend, work, op, bodies, st_clean, res, tag, prior, where, variant + "+stale-locks-removed", sc, k, cleaned=True)
+        if cls == "Locked" or "Locked" in type(e).__name__:
+            res.count("followups_still_refused_after_lock_cleanup")
+            return
         res.violation(f"{tag}/next-operation-after-crash-fails/{variant}/{cls.replace('EXC:', '')}", f"{tag} prior={prior}: crash {where} [{variant}]: the next operation on the same target raises {e!r}", wit)
         return
     res.count("followups_acknowledged")
@@ -666,6 +744,8 @@ def scenarios(tier):
                     priors = [1]
                 for prior in priors:
                     out.append({"backend": backend, "meta": meta, "op": op, "prior": prior})
+                    if backend == "vdir" and op in ("create", "replace", "set-displayname") and prior == priors[-1]:
+                        out.append({"backend": backend, "meta": meta, "op": op, "prior": prior, "tmp_on_other_fs": True})
     return out
 
 
@@ -684,6 +764,7 @@ def check(tier, seed, t0):
               ("acknowledged operations on a crash state read back", c.get("followups_acknowledged", 0), 400),
               ("interrupted operations repeated on the crash state", c.get("retries_acknowledged", 0), 400),
               ("second process deaths during the next write on a crash state (vdir)", c.get("second_crash_points", 0), 60),
+              ("operations that failed with an I/O error (file size limit) instead of dying", c.get("failed_write_points", 0), 60),
               ("crash states equal to the old state", c.get("state_old", 0), 300), ("crash states equal to the new state", c.get("state_new", 0), 80)]
     for backend in ("tree", "bare", "vdir"):
         for op in ("create", "replace", "delete"):
